@@ -178,7 +178,69 @@ def check_phase_by():
     return [_rep(key, obls, "C08")]
 
 
-ENGINE_CHECKS = [check_powers, check_controlled, check_phase_by]
+def check_fsim_equality():
+    """PhasedFSimGate / FSimGate equality bookkeeping, for ALL angles: the real `qubit_index_to_equivalence_group_key` may give both
+    qubits the same key only if exchanging the qubits leaves the matrix unchanged, and two gates with equal `_value_equality_values_`
+    have equal matrices.  Each of theta / zeta / chi is explored at every value the code compares against (0, -pi, +-pi/2: the
+    constructor canonicalises into [-pi, pi)) and as a free symbol (every other value: the comparisons are then False); gamma and phi
+    stay symbols.  The matrix identities are polynomial identities in the remaining symbols."""
+    import cirq
+    from contracts.C03_gates import _Generic
+    from contracts.C04_kernels import _install_shims
+
+    _install_shims()
+    F = "cirq-core/cirq/ops/fsim_gate.py"
+    pi = np.pi
+    choices = [("*", None), ("0", 0.0), ("-pi", -pi), ("pi/2", pi / 2), ("-pi/2", -pi / 2)]
+    perm = [0, 2, 1, 3]
+    obls = []
+
+    def mk(theta, zeta, chi, gamma, phi):
+        return gs._raw(cirq.PhasedFSimGate, _theta=theta, _zeta=zeta, _chi=chi, _gamma=gamma, _phi=phi)
+
+    def unitary(g):
+        trigpoly.CTX = _Generic()
+        try:
+            return np.asarray(cirq.unitary(g), dtype=object)
+        finally:
+            trigpoly.CTX = None
+
+    for (tn, tv), (zn, zv), (cn, cv) in itertools.product(choices, repeat=3):
+        vals = dict(theta=Angle.sym("theta") if tv is None else Angle.of(tv), zeta=Angle.sym("zeta") if zv is None else Angle.of(zv),
+                    chi=Angle.sym("chi") if cv is None else Angle.of(cv), gamma=Angle.sym("gamma"), phi=Angle.sym("phi"))
+        label = f"theta={tn}, zeta={zn}, chi={cn}"
+
+        def fn_key(vals=vals):
+            g = mk(**vals)
+            trigpoly.CTX = _Generic()
+            try:
+                k0, k1 = g.qubit_index_to_equivalence_group_key(0), g.qubit_index_to_equivalence_group_key(1)
+            finally:
+                trigpoly.CTX = None
+            if k0 != k1:
+                return True, "qubits kept apart"
+            U = unitary(g)
+            ok, d = matrix_equal(U[np.ix_(perm, perm)], U)
+            return ok, ("" if ok else "both qubits get the same equivalence key, but exchanging them changes the matrix: " + d)
+
+        def fn_val(vals=vals):
+            g = mk(**vals)
+            trigpoly.CTX = _Generic()
+            try:
+                v = g._value_equality_values_()
+            finally:
+                trigpoly.CTX = None
+            g2 = mk(*[Angle.of(x) for x in v])
+            ok, d = matrix_equal(unitary(g2), unitary(g))
+            return ok, ("" if ok else f"the gate with parameters {v!r} compares equal but has a different matrix: " + d)
+
+        c = {k: repr(v) for k, v in vals.items()}
+        obls.append(_ob(f"C08/{F}:PhasedFSimGate.qubit_index_to_equivalence_group_key#same-key-implies-symmetric[{label}]", fn_key, case="PhasedFSimGate", concrete=c))
+        obls.append(_ob(f"C08/{F}:PhasedFSimGate._value_equality_values_#equal-values-equal-matrices[{label}]", fn_val, case="PhasedFSimGate", concrete=c))
+    return [_rep(F + ":PhasedFSimGate[equality bookkeeping]", obls, "C08")]
+
+
+ENGINE_CHECKS = [check_powers, check_controlled, check_phase_by, check_fsim_equality]
 
 
 # ---- bounded / exhaustive-small stand-ins -------------------------------------------------------------------------------
@@ -329,7 +391,77 @@ def standin_predicates(tier, seed):
                 bound="~150 gates: trace_distance_bound, has_stabilizer_effect, pauli_expansion; all same-size pairs of 1-2 qubit gates: commutes/==/approx_eq/"
                       "equal_up_to_global_phase; phase_by on each qubit", cases=cases, distinct=cases, failures=len(fails), exhaustive=False, _fails=fails[:6])
 standin_predicates.prop = "C08"
-STANDINS = [standin_control_values, standin_predicates]
+
+
+def standin_operation_equality(tier, seed):
+    """equality predicates on OPERATIONS: the same gate on permuted qubits may only compare equal (==, hash, approx_eq,
+    equal_up_to_global_phase, inside circuits) when the two operations have the same matrix on a fixed qubit order"""
+    import random
+    import cirq
+    from contracts import refsim
+    from contracts.C04_protocols import gate_library
+
+    rng = random.Random(seed)
+    cases, fails = 0, []
+    pi = np.pi
+    special = [0.0, pi / 2, -pi / 2, pi, -pi, pi / 4, 0.3, 2 * pi, 3 * pi / 2]
+    gates = [g for g in gate_library() if cirq.has_unitary(g) and 2 <= cirq.num_qubits(g) <= 3 and all(d == 2 for d in cirq.qid_shape(g))]
+    # PhasedFSimGate: swapping the qubits negates zeta and chi; at theta = +-pi/2 / 0, pi one of them drops out of the matrix
+    grid = [(t, z, c, g_, p_) for t in special for z in special[:7] for c in special[:7] for g_ in (0.0, 0.4) for p_ in (0.0, 0.7)]
+    gates += [cirq.PhasedFSimGate(t, z, c, g_, p_) for t, z, c, g_, p_ in grid]
+    gates += [cirq.PhasedFSimGate.from_fsim_rz(t, p_, (a, b), (c, d)) for t in (0.0, pi / 2, 0.3) for p_ in (0.0, 0.5) for a, b, c, d in ((0.1, 0.2, 0.3, 0.4), (0.0, 0.5, 0.0, 0.5), (0.2, 0.2, 0.7, 0.7))]
+    gates += [cirq.FSimGate(t, p_) for t in special[:6] for p_ in (0.0, 0.3, pi)]
+    gates += [cirq.PhasedISwapPowGate(phase_exponent=pe, exponent=e) for pe in (0.0, 0.25, 0.5, 1.0, 0.3) for e in (1.0, 0.5, 2.0, 0.3)]
+    gates += [cirq.ControlledGate(cirq.Z ** e, num_controls=1) for e in (1.0, 0.5)] + [cirq.ControlledGate(cirq.X, control_values=[0]), cirq.ControlledGate(cirq.CZ, control_values=[1]),
+              cirq.ControlledGate(cirq.Z, num_controls=2, control_values=[0, 1]), cirq.ControlledGate(cirq.Z, num_controls=2, control_values=[1, 1]),
+              cirq.ControlledGate(cirq.Z, num_controls=2, control_values=cirq.SumOfProducts([[0, 1], [1, 0]])), cirq.ControlledGate(cirq.Z, num_controls=2, control_values=cirq.SumOfProducts([[0, 1], [1, 1]]))]
+    gates += [cirq.MatrixGate(np.diag([1, 1j, 1j, -1])), cirq.MatrixGate(np.diag([1, 1j, -1j, -1])), cirq.TwoQubitDiagonalGate([0.1, 0.2, 0.2, 0.3]), cirq.TwoQubitDiagonalGate([0.1, 0.2, 0.3, 0.4]),
+              cirq.ThreeQubitDiagonalGate([0.1 * k for k in range(8)]), cirq.ParallelGate(cirq.X ** 0.3, 2), cirq.ParallelGate(cirq.H, 3), cirq.QubitPermutationGate([1, 0]), cirq.QubitPermutationGate([1, 2, 0]),
+              cirq.givens(0.3), cirq.riswap(0.4), cirq.CCZ ** 0.5, cirq.CCX ** 0.5, cirq.CSWAP, cirq.XX ** 0.3, cirq.YY ** 0.3, cirq.ZZ ** 0.3, cirq.MSGate(rads=0.4) if hasattr(cirq, "MSGate") else cirq.ms(0.4)]
+
+    def bad(what, g, perm, **kw):
+        if sum(1 for f in fails if f["failed"] == what) < 2:
+            fails.append(dict(args=dict(gate=repr(g), qubit_permutation=list(perm), **kw), failed=what,
+                              clause=f"{what}: gate.on(q0, q1, ...) vs the same gate on the permuted qubits {list(perm)} have different matrices on the fixed order"))
+
+    for g in gates:
+        n = cirq.num_qubits(g)
+        qs = cirq.LineQubit.range(n)
+        try:
+            op1 = g.on(*qs)
+            u1 = refsim.embed(cirq.unitary(op1), list(op1.qubits), list(qs))
+        except Exception:
+            continue
+        for perm in itertools.permutations(range(n)):
+            if list(perm) == list(range(n)):
+                continue
+            op2 = g.on(*[qs[i] for i in perm])
+            u2 = refsim.embed(cirq.unitary(op2), list(op2.qubits), list(qs))
+            cases += 1
+            same = np.allclose(u1, u2, atol=1e-7)
+            same_phase = cirq.allclose_up_to_global_phase(u1, u2, atol=1e-7)
+            if op1 == op2 and not same:
+                bad("== is True for operations with different matrices", g, perm)
+            if op1 == op2 and hash(op1) != hash(op2):
+                bad("equal operations with different hashes", g, perm)
+            if cirq.approx_eq(op1, op2, atol=1e-9) and not same:
+                bad("approx_eq is True for operations with different matrices", g, perm)
+            try:
+                eq = cirq.equal_up_to_global_phase(op1, op2, atol=1e-9)
+            except Exception:
+                eq = False
+            if eq and not same_phase:
+                bad("equal_up_to_global_phase is True for operations whose matrices differ by more than a phase", g, perm)
+            if cirq.Circuit(op1) == cirq.Circuit(op2) and not same:
+                bad("circuits compare equal although their operations have different matrices", g, perm)
+            if cirq.Moment(op1) == cirq.Moment(op2) and not same:
+                bad("moments compare equal although their operations have different matrices", g, perm)
+    return dict(function="cirq-core/cirq/ops[operation equality under qubit permutations vs matrices]", case="operation-equality",
+                bound=f"{len(gates)} two- and three-qubit gates (library + PhasedFSim grid over special angles + controlled / diagonal / parallel / permutation gates) x all qubit permutations; "
+                      "==, hash, approx_eq, equal_up_to_global_phase, Circuit / Moment equality",
+                cases=cases, distinct=cases, failures=len(fails), exhaustive=False, _fails=fails[:6])
+standin_operation_equality.prop = "C08"
+STANDINS = [standin_control_values, standin_predicates, standin_operation_equality]
 
 CANARIES = [
     dict(name="EigenGate.__pow__ adds instead of multiplies", file="cirq-core/cirq/ops/eigen_gate.py", engine_check=0,
@@ -338,6 +470,9 @@ CANARIES = [
          find="            if result.control_qid_shape == (2,):\n                return cirq.CZPowGate(exponent=self._exponent)", replace="            pass\n        if isinstance(result, controlled_gate.ControlledGate) and result.control_values.is_trivial:\n            if result.control_qid_shape == (2,):\n                return cirq.CZPowGate(exponent=self._exponent)"),
 ]
 CANARIES = CANARIES + [
+    dict(name="PhasedFSimGate: one insensitive angle makes the qubits interchangeable", file="cirq-core/cirq/ops/fsim_gate.py", engine_check=3,
+         find="        if (_zero_mod_pi(self.zeta) or self._zeta_insensitive()) and (\n            _zero_mod_pi(self.chi) or self._chi_insensitive()\n        ):",
+         replace="        if (_zero_mod_pi(self.zeta) or self._zeta_insensitive()) or (\n            _zero_mod_pi(self.chi) or self._chi_insensitive()\n        ):"),
     dict(name="phase_by treats phase exponent 1 like 0", file="cirq-core/cirq/ops/common_gates.py", engine_check=2,
          find="            case 0.0:\n                return XPowGate(exponent=exponent)", replace="            case 0.0 | 1.0:\n                return XPowGate(exponent=exponent)"),
 ]
@@ -348,3 +483,30 @@ NOT_COVERED = [
 ASSUMPTIONS = ["trigpoly assumptions of C03", "true trace distance of a unitary = sqrt(1 - d^2), d = distance of 0 to the convex hull of its eigenvalues"]
 EXPLANATION = ("C08: powers (matrix of g**t, (g**a)**b, inverse, additivity) and the specialised controlled() results proved for all real "
                "exponents/shifts with trigpoly on 14 families; control-value denotation exhaustive-small; predicates bounded. ")
+
+
+def _replay_fsim(ob, seed):
+    """concrete witness for a failed PhasedFSimGate equality obligation: free symbols get generic numbers, then the real predicates are asked"""
+    import cirq
+    from contracts import refsim
+
+    if not ob.concrete or "theta" not in ob.concrete:
+        return None
+    label = ob.name.split("[")[-1].rstrip("]")
+    pick = {"*": None, "0": 0.0, "-pi": -np.pi, "pi/2": np.pi / 2, "-pi/2": -np.pi / 2}
+    spec = dict(x.strip().split("=") for x in label.split(","))
+    generic = {"theta": 0.37, "zeta": 0.71, "chi": -0.53}
+    vals = {k: (generic[k] if pick[spec[k]] is None else pick[spec[k]]) for k in ("theta", "zeta", "chi")}
+    g = cirq.PhasedFSimGate(vals["theta"], vals["zeta"], vals["chi"], 0.2, 0.9)
+    a, b = cirq.LineQubit.range(2)
+    op1, op2 = g.on(a, b), g.on(b, a)
+    u1, u2 = cirq.unitary(op1), refsim.embed(cirq.unitary(op2), [b, a], [a, b])
+    if op1 == op2 and not np.allclose(u1, u2, atol=1e-8):
+        return dict(args=dict(gate=repr(g)), failed="operation-equality", clause="gate.on(a, b) == gate.on(b, a) although the two operations have different matrices")
+    g2 = cirq.PhasedFSimGate(vals["theta"], 0.0 if spec["zeta"] == "*" else vals["zeta"], 0.0 if spec["chi"] == "*" else vals["chi"], 0.2, 0.9)
+    if g == g2 and not np.allclose(cirq.unitary(g), cirq.unitary(g2), atol=1e-8):
+        return dict(args=dict(gate=repr(g), other=repr(g2)), failed="gate-equality", clause="two PhasedFSimGates compare equal although their matrices differ")
+    return None
+
+
+REPLAYERS = {"cirq-core/cirq/ops/fsim_gate.py:PhasedFSimGate[equality bookkeeping]": _replay_fsim}
